@@ -205,7 +205,7 @@ func genC09(t *rapid.T, env *wire.GenEnv) c09Case {
 			in.Kind = "missing-element"
 			// template with one element that is not in the model, at a drawn position among known fields
 			tp := env.GenTemplate(t, freshID())
-			miss := wire.Field{ID: uint16(rapid.SampledFrom([]int{434, 500, 9999, 32767}).Draw(t, "missingid")), Len: uint16(rapid.IntRange(1, 8).Draw(t, "missinglen")), Type: wire.TUnknown}
+			miss := wire.Field{ID: uint16(rapid.SampledFrom(env.MissingIDs()).Draw(t, "missingid")), Len: uint16(rapid.IntRange(1, 8).Draw(t, "missinglen")), Type: wire.TUnknown}
 			if tp.Options && len(tp.Scope) > 0 && rapid.Bool().Draw(t, "missinscope") {
 				// the missing element is a scope field of an options template
 				pos := rapid.IntRange(0, len(tp.Scope)).Draw(t, "missscopepos")
